@@ -36,6 +36,7 @@ fn main() {
         }
         "replay" if args.len() >= 4 => find(&args[2]).replay(&args[3]),
         "worker" if args.len() >= 3 => find(&args[2]).worker(),
+        "fuzz" if args.len() >= 3 => find(&args[2]).fuzz_only(seed),
         "selftest" => svgdx_verif::props::selftest::run(seed),
         _ => usage(),
     };
